@@ -1,5 +1,6 @@
 import BbRe.Lemmas.SchedTreeLock
 import BbRe.Lemmas.SchedInvParked
+import BbRe.Lemmas.SchedTreeRead
 /-!
 # C04 (tree layer) — the invocation tree as state refines the scheduler model
 
@@ -75,5 +76,82 @@ theorem no_queued_while_parked (ts : TState) (h : TReachable ts) :
       queuedTasks ts.s wk.scq = [] ∧ wk.terminating = false ∧
       (∀ sq, ts.s.scq? wk.scq = some sq → isDrained sq wk = false) :=
   BbRe.Lemmas.SchedInv.parkedOK_reachable (refines_sched_reachable ts h)
+
+/-- **tree_inv.**  In every reachable state the invocation trees are exactly what the task, operation and
+worker tables say (`Lemmas/SchedTreeRead.lean`, `TreeInv`): one invocation per path with its parent, a root
+per size-class queue; `queuedOperations` = the operations of QUEUED tasks in that invocation (so the queued
+flag of a task and the membership of its operations in `queuedOperations` agree); `queuedChildren` = the
+children with a queued operation in their subtree; `idleSynchronizingWorkers` = the workers blocked in
+`Synchronize` whose last invocation this is; `idleSynchronizingWorkersChildren` = the children with such a
+worker in their subtree; `executingWorkers[w]` = the number of operations in the subtree of tasks executing on
+`w` (no zero entries, nothing left of the temporary worker of `task.complete`); `idleWorkersCount` = the
+number of workers whose last invocation is in the subtree; a non-root invocation exists iff something of the
+above is recorded at or below it (`getOrCreateInvocation` / `removeIfEmpty`).
+
+Not covered: `firstQueuedOperationPriority`.  The statement that does hold in the Go code is
+```
+∀ n ∈ ts.nodes, n.path ≠ [] → n.qops ≠ [] → n.prio = minPrio (n.qops.map ts.prioOf)
+```
+(for an invocation without directly queued operations the field is a cache of the value a queued child had
+when `updateFirstOperationPriority` last ran on the path, and `incrementExecutingWorkersCount` /
+`decrementExecutingWorkersCount` reorder `queuedChildren` without refreshing it, so nothing stronger is an
+invariant).  It is compared at run time by the harness (`treedump` prints the priority of queued
+invocations) but not proved; hence the name. -/
+theorem tree_inv_partial (ts : TState) (h : TReachable ts) : TreeInv ts :=
+  (tinv_reachable h).treeInv
+
+/-- the executable checker of `Model/SchedTreeCheck.lean` that the driver runs after every segment
+(`treecheck`) tests the clauses of the invariant behind `tree_inv`; the invariant itself, in the form the
+lemmas use it (`TInv`: the invariant of `Model/Sched.lean`, `TreeOK` for the four bags, the coupling `Side`) -/
+theorem tree_inv_raw (ts : TState) (h : TReachable ts) : TInv ts := tinv_reachable h
+
+/-- **no_queued_while_parked**, tree form: while a worker is enqueued in `idleSynchronizingWorkers` of some
+invocation of a size-class queue (or, equivalently, some `idleSynchronizingWorkersChildren` is non-empty),
+no invocation of that queue has queued operations or queued children. -/
+theorem no_queued_while_parked_tree (ts : TState) (h : TReachable ts) :
+    ∀ n ∈ ts.nodes, n.hasParked = true → ∀ m ∈ ts.nodes, m.scq = n.scq → m.isQueued = false := by
+  intro n hn hp m hm hq
+  have hI := tinv_reachable h
+  have hT := hI.treeInv
+  -- a worker is parked at or below `n`
+  have hpk : ∃ p w, ParkedAt ts n.scq p w := by
+    unfold Node.hasParked at hp
+    cases hpl : n.parked with
+    | cons w r =>
+      exact ⟨n.path, w, ((hT.idleSynchronizingWorkers n hn).2 w).mp (by rw [hpl]; exact List.mem_cons_self)⟩
+    | nil =>
+      cases hkl : n.ikids with
+      | nil => rw [hpl, hkl] at hp; simp at hp
+      | cons k r =>
+        obtain ⟨p, w, hw, _⟩ := ((hT.idleSynchronizingWorkersChildren n hn).2 k).mp (by rw [hkl]; exact List.mem_cons_self)
+        exact ⟨p, w, hw⟩
+  obtain ⟨p, w, ⟨wk, hwk, hwp⟩, _⟩ := hpk
+  rw [BbRe.Lemmas.SchedInv.worker?_def] at hwk
+  have hkey := BbRe.Lemmas.SchedInv.wfind_key hwk
+  have hnq := (no_queued_while_parked ts h wk (BbRe.Lemmas.SchedInv.wfind_mem hwk) hwp).1
+  rw [hkey.1] at hnq
+  have hnone : ∀ p' o, ¬ QueuedAt ts n.scq p' o := by
+    rintro p' o ⟨k, t, hk, hqd, hs, ho, _⟩
+    rw [BbRe.Lemmas.SchedInv.task?_def] at hk
+    have : t ∈ queuedTasks ts.s n.scq := by
+      unfold queuedTasks
+      have hrw := hI.inv.core.q1 k t hk hqd
+      refine List.mem_map.mpr ⟨(k, t), List.mem_filter.mpr ⟨BbRe.Lemmas.SchedInv.mem_of_alookup hk, ?_⟩, rfl⟩
+      simp [hs, hqd, hrw.1, hrw.2]
+    rw [hnq] at this; cases this
+  cases hmq : m.isQueued with
+  | false => rfl
+  | true =>
+    exfalso
+    unfold Node.isQueued at hmq
+    cases hql : m.qops with
+    | cons o r =>
+      exact hnone _ o (hq ▸ ((hT.queuedOperations m hm).2 o).mp (by rw [hql]; exact List.mem_cons_self))
+    | nil =>
+      cases hkl : m.qkids with
+      | nil => rw [hql, hkl] at hmq; simp at hmq
+      | cons k r =>
+        obtain ⟨p', o, ho, _⟩ := ((hT.queuedChildren m hm).2 k).mp (by rw [hkl]; exact List.mem_cons_self)
+        exact hnone p' o (hq ▸ ho)
 
 end BbRe.Properties.C04Tree
